@@ -165,9 +165,18 @@ func runSigdb(sc M) {
 		o2, _ := guard(func() error {
 			switch name {
 			case "append":
-				res = errClass(db.Append(guidOf(typeGUIDWire, t), guidOf(ownerGUIDWire, ow), append([]byte{}, dv.bytes...)))
+				// both spellings of the operation, alternating
+				if i%2 == 0 {
+					res = errClass(db.Append(guidOf(typeGUIDWire, t), guidOf(ownerGUIDWire, ow), append([]byte{}, dv.bytes...)))
+				} else {
+					res = errClass(db.AppendSignature(guidOf(typeGUIDWire, t), &signature.SignatureData{Owner: guidOf(ownerGUIDWire, ow), Data: append([]byte{}, dv.bytes...)}))
+				}
 			case "remove":
-				res = errClass(db.Remove(guidOf(typeGUIDWire, t), guidOf(ownerGUIDWire, ow), append([]byte{}, dv.bytes...)))
+				if i%2 == 0 {
+					res = errClass(db.Remove(guidOf(typeGUIDWire, t), guidOf(ownerGUIDWire, ow), append([]byte{}, dv.bytes...)))
+				} else {
+					res = errClass(db.RemoveSignature(guidOf(typeGUIDWire, t), &signature.SignatureData{Owner: guidOf(ownerGUIDWire, ow), Data: append([]byte{}, dv.bytes...)}))
+				}
 			case "query":
 				r1 := db.BytesExists(guidOf(typeGUIDWire, t), guidOf(ownerGUIDWire, ow), dv.bytes)
 				r2 := db.SigDataExists(guidOf(typeGUIDWire, t), &signature.SignatureData{Owner: guidOf(ownerGUIDWire, ow), Data: dv.bytes})
@@ -177,6 +186,18 @@ func runSigdb(sc M) {
 				}
 				if r1 != r2 {
 					res = "inconsistent"
+				}
+				// the list-valued membership query must agree for a one-entry list of the stored shape
+				if ql, err := signature.ReadSignatureList(bytes.NewReader(func() []byte {
+					l := signature.NewSignatureList(guidOf(typeGUIDWire, t))
+					l.AppendBytes(guidOf(ownerGUIDWire, ow), append([]byte{}, dv.bytes...))
+					return l.Bytes()
+				}())); err == nil && (t == "sha256" || t == "x509") && len(ql.Signatures) == 1 && dv.norm == d {
+					// db.Exists looks only at the first list with the same header; it may answer false for an entry held by a later list,
+					// but it must never claim an entry that the collection does not hold
+					if db.Exists(guidOf(typeGUIDWire, t), ql) && !r1 {
+						res = "inconsistent"
+					}
 				}
 			case "listnew":
 				sl = signature.NewSignatureList(guidOf(typeGUIDWire, t))
@@ -189,6 +210,15 @@ func runSigdb(sc M) {
 				ev["t"] = lookupWire(typeGUIDWire, guidWire(sl.SignatureType))
 				res = errClass(sl.RemoveBytes(guidOf(ownerGUIDWire, ow), dv.bytes))
 			case "appendlist":
+				if len(sl.Signatures) > 0 && i%2 == 1 {
+					// the same through AppendDatabase
+					other := signature.NewSignatureDatabase()
+					other.AppendList(sl)
+					db.AppendDatabase(other)
+					sl = nil
+					res = "ok"
+					return nil
+				}
 				if len(sl.Signatures) == 0 {
 					// appending an empty list is outside the modelled alphabet (DESIGN C07/A: count = 0 is MAY)
 					ev["op"] = "skip"
